@@ -157,6 +157,7 @@ def run(ctx):
     same_name_contexts(ctx)
     nil_with_attributes(ctx)
     outlined_presentations(ctx)
+    times_and_mixed_use(ctx)
     if metas:
         ctx.sample({"input": metas[0][0], "decoded": metas[0][1]})
 
@@ -228,6 +229,59 @@ def outlined_presentations(ctx):
                 continue
             if got != base:
                 ctx.fail("two presentations of one reply decode differently", meta, repr(got)[:1500], repr(base)[:1500])
+
+
+def times_and_mixed_use(ctx):
+    """(a) xsd:time leaves (the generated family has dates and dateTimes only): zones of every kind and fractional
+    seconds of any length, rounded half-up to the microsecond, the UTC offset kept. (b) an rpc operation whose input
+    body is literal and whose output body is encoded: the reply is decoded by the OUTPUT's rules (a soapenc array of
+    ints is a list of ints)."""
+    import datetime
+    schema = ('<xsd:element name="f"><xsd:complexType><xsd:sequence/></xsd:complexType></xsd:element>'
+              '<xsd:element name="fResponse"><xsd:complexType><xsd:sequence><xsd:element name="t" type="xsd:time" '
+              'maxOccurs="unbounded"/></xsd:sequence></xsd:complexType></xsd:element>')
+    client = wsdlkit.client(wsdlkit.wsdl_doc(schema, "f", "fResponse"))
+    cases = [("08:30:00", (8, 30, 0, 0), None), ("08:30:00Z", (8, 30, 0, 0), 0), ("08:30:00.5+02:00", (8, 30, 0, 500000), 120),
+             ("08:30:00.1234567+02:00", (8, 30, 0, 123457), 120), ("08:30:00.1234564-05:30", (8, 30, 0, 123456), -330),
+             ("23:59:58.9999995Z", (23, 59, 59, 0), 0), ("08:30:00.9999999+01:00", (8, 30, 1, 0), 60),
+             ("00:00:00.0000005-00:00", (0, 0, 0, 1), 0), ("12:00:00.1234565", (12, 0, 0, 123457), None)]
+    data = ('<e:Envelope xmlns:e="%s"><e:Body><fResponse xmlns="%s">%s</fResponse></e:Body></e:Envelope>'
+            % (xmlread.ENV11, wsdlkit.TNS, "".join("<t>%s</t>" % c[0] for c in cases))).encode()
+    meta = {"stream": "time-leaves", "texts": [c[0] for c in cases]}
+    ctx.case(common.canon(meta), True)
+    try:
+        r = client.service.f(__inject={"reply": data})
+        r = getattr(r, "t", r)
+        got = [[type(x).__name__, (x.hour, x.minute, x.second, x.microsecond),
+                None if x.utcoffset() is None else int(x.utcoffset().total_seconds() // 60)]
+               if isinstance(x, datetime.time) else repr(x) for x in r]
+    except Exception as e:
+        got = "%s: %s" % (type(e).__name__, e)
+    want = [["time", c[1], c[2]] for c in cases]
+    if got != want:
+        ctx.fail("xsd:time leaves are not decoded to the time (and UTC offset) the text denotes", meta, got, want)
+    # (b)
+    w = wsdlkit.wsdl_doc('<xsd:import namespace="http://schemas.xmlsoap.org/soap/encoding/"/><xsd:complexType name="Ints">'
+                         '<xsd:complexContent><xsd:restriction base="soapenc:Array"><xsd:attribute ref="soapenc:arrayType" '
+                         'wsdl:arrayType="xsd:int[]"/></xsd:restriction></xsd:complexContent></xsd:complexType>',
+                         style="rpc", use="literal", in_parts=[("a", "type", "xsd:string")],
+                         out_parts=[("r", "type", "x:Ints")])
+    marker = b'<wsdl:output><soap:body use="literal"'
+    assert w.count(marker) == 1
+    w = w.replace(marker, b'<wsdl:output><soap:body encodingStyle="http://schemas.xmlsoap.org/soap/encoding/" use="encoded"')
+    reply = ('<e:Envelope xmlns:e="%s" xmlns:xsi="%s" xmlns:xsd="%s" xmlns:soapenc="%s"><e:Body><m:fResponse xmlns:m="%s">'
+             '<r xsi:type="soapenc:Array" soapenc:arrayType="xsd:int[3]"><item>1</item><item>22</item><item>333</item></r>'
+             '</m:fResponse></e:Body></e:Envelope>' % (xmlread.ENV11, xmlread.XSI, xmlread.XSD, xmlread.ENC, wsdlkit.TNS)).encode()
+    meta = {"stream": "input-literal-output-encoded"}
+    ctx.case(common.canon(meta), True)
+    try:
+        got = client2_result = wsdlkit.client(w).service.f("x", __inject={"reply": reply})
+        got = [type(got).__name__, [[type(x).__name__, x] for x in got] if isinstance(got, list) else repr(got)]
+    except Exception as e:
+        got = "%s: %s" % (type(e).__name__, e)
+    if got != ["list", [["int", 1], ["int", 22], ["int", 333]]]:
+        ctx.fail("a reply is not decoded by the rules of the operation's OUTPUT body (encoded) when the input body is "
+                 "literal", meta, got, ["list", [["int", 1], ["int", 22], ["int", 333]]])
 
 
 def nil_with_attributes(ctx):
